@@ -43,7 +43,9 @@ EntryPoints == DOMAIN Templates
 \* what a node of the template is replaced by
 Replacements == {"null", "true", "zero", "minus_one", "huge_number", "empty_string", "long_string", "empty_array", "empty_object",
                  "deep_nesting", "removed", "duplicated", "other_type", "string_of_number", "array_of_self", "negative_index",
-                 "huge_index", "large_index", "varint_overflow", "pointer_into_own_source", "non_string_key_value", "unicode_garbage"}
+                 "huge_index", "large_index", "varint_overflow", "pointer_into_own_source", "non_string_key_value", "unicode_garbage",
+                 \* (a '~' that starts no escape; a value of the same shape - width, alphabet - that is not the value)
+                 "stray_tilde", "same_shape_other_value"}
 
 \* chains of copy / move operations among a few locations of one document: a library that links nodes
 \* instead of copying them must not be led into a cyclic document
